@@ -184,6 +184,35 @@ Proof.
   destruct (ex (qe_id q)); [apply sub_skip; apply IH|]. destruct (memZ (qe_sfx q) seen); [apply sub_skip | apply sub_keep]; apply IH.
 Qed.
 
+Lemma memZ_true_in x l : memZ x l = true -> In x l.
+Proof.
+  induction l as [|y r IH]; cbn [memZ In]; [discriminate|]. intros H. apply orb_true_iff in H.
+  destruct H as [H|H]; [left; symmetry; apply Z.eqb_eq; exact H | right; apply IH; exact H].
+Qed.
+
+(* an operation is handed back only behind an operation of the same suffix that is already seen or included *)
+Lemma split_add_behind ex : forall l seen q,
+  In q (sp_add (split_batch ex seen l)) ->
+  In (qe_sfx q) seen \/ exists i, In i (sp_in (split_batch ex seen l)) /\ qe_sfx i = qe_sfx q.
+Proof.
+  induction l as [|h r IH]; intros seen q; cbn [split_batch]; [intros []|].
+  destruct (ex (qe_id h)); cbn [sp_in sp_add]; [apply IH|].
+  destruct (memZ (qe_sfx h) seen) eqn:Em; cbn [sp_in sp_add].
+  - intros [<-|Hin]; [left; apply memZ_true_in; exact Em | apply IH; exact Hin].
+  - intros Hin. destruct (IH _ _ Hin) as [[Hs|Hs]|(i & Hi & Hs)].
+    + right. exists h. split; [left; reflexivity | exact Hs].
+    + left. exact Hs.
+    + right. exists i. split; [right; exact Hi | exact Hs].
+Qed.
+
+(* F16: a batch in which nothing is included (every operation expired) hands nothing back either *)
+Lemma split_in_nil_add_nil ex l : sp_in (split_batch ex [] l) = [] -> sp_add (split_batch ex [] l) = [].
+Proof.
+  intros Hi. destruct (sp_add (split_batch ex [] l)) as [|q r] eqn:Ea; [reflexivity|].
+  destruct (split_add_behind ex l [] q) as [[]|(i & Hin & _)]; [rewrite Ea; left; reflexivity|].
+  rewrite Hi in Hin. destruct Hin.
+Qed.
+
 (* a non-empty batch makes progress: not everything is handed back *)
 Lemma split_progress ex l : l <> [] -> (length (sp_add (split_batch ex [] l)) < length l)%nat.
 Proof.
@@ -272,7 +301,8 @@ Record inv (cfg : config) (st : pstate) : Prop := {
   inv_num : 0 <= next_num st;
   inv_unpub : incl (map u_q (unpub st)) (accepted st);
   inv_qver : Forall (accepted_under cfg) (accepted st);
-  inv_ledger : Forall (fun t => version_at (c_versions cfg) (t_pver t) <> None /\ NoDup (map qe_sfx (t_ops t))) (ledger st);
+  inv_ledger : Forall (fun t => version_at (c_versions cfg) (t_pver t) <> None /\ NoDup (map qe_sfx (t_ops t)) /\ t_ops t <> [])
+                      (ledger st);
   inv_dropped : dropped st = [];
   inv_stamp : Forall (stamp_ok cfg) (anch st);
   inv_pver : Forall (fun e => version_at (c_versions cfg) (s_pver e) <> None) (anch st) }.
@@ -307,6 +337,22 @@ Proof.
 Qed.
 
 (* -- cut -- *)
+(* the transaction a cut writes: none when every operation of the batch has expired (F16) *)
+Definition mk_txn (cfg : config) (st : pstate) (ver : Z) (sp : split) : txn :=
+  {| t_time := now st; t_num := next_num st; t_cref := next_num st + 1;
+     t_pver := if c_by_time cfg then now st else ver; t_ops := sp_in sp |}.
+Definition cut_txns (cfg : config) (st : pstate) (ver : Z) (sp : split) : list txn :=
+  match sp_in sp with [] => [] | _ :: _ => [mk_txn cfg st ver sp] end.
+Definition cut_num (st : pstate) (sp : split) : Z :=
+  match sp_in sp with [] => next_num st | _ :: _ => next_num st + 1 end.
+
+Lemma cut_txns_cases cfg st ver sp :
+  (sp_in sp = [] /\ cut_txns cfg st ver sp = [] /\ cut_num st sp = next_num st) \/
+  (sp_in sp <> [] /\ cut_txns cfg st ver sp = [mk_txn cfg st ver sp] /\ cut_num st sp = next_num st + 1).
+Proof.
+  unfold cut_txns, cut_num. destruct (sp_in sp) as [|i0 ir]; [left | right]; repeat split; discriminate.
+Qed.
+
 Lemma cut_spec cfg ex f st st' :
   cut cfg ex f st = Some st' ->
   exists cur batch rest ver,
@@ -316,10 +362,9 @@ Lemma cut_spec cfg ex f st st' :
     (f = false -> (pv_max cur <= length (queue st))%nat) /\
     version_at (c_versions cfg) ver <> None /\
     let sp := split_batch (fun i => memZ i ex) [] batch in
-    st' = {| now := now st; next_num := next_num st + 1;
+    st' = {| now := now st; next_num := cut_num st sp;
              queue := rest ++ sp_add sp;
-             ledger := ledger st ++ [{| t_time := now st; t_num := next_num st; t_cref := next_num st + 1;
-                                        t_pver := if c_by_time cfg then now st else ver; t_ops := sp_in sp |}];
+             ledger := ledger st ++ cut_txns cfg st ver sp;
              store := store st; unpub := unpub st; expired := expired st ++ sp_exp sp; dropped := dropped st;
              accepted := accepted st |}.
 Proof.
@@ -327,8 +372,20 @@ Proof.
   destruct (negb f && (length (queue st) <? pv_max cur)%nat) eqn:Ec; [discriminate|].
   destruct (firstn (Nat.min (length (queue st)) (pv_max cur)) (queue st)) as [|q0 w] eqn:Ew; [discriminate|].
   destruct (version_at (c_versions cfg) (qe_ver q0)) as [vv|] eqn:Evv; [|discriminate].
-  intros H. injection H as <-.
   set (batch := same_version_prefix (qe_ver q0) (q0 :: w)).
+  intros H.
+  assert (Hst : st' = {| now := now st; next_num := cut_num st (split_batch (fun i => memZ i ex) [] batch);
+             queue := skipn (length batch) (queue st) ++ sp_add (split_batch (fun i => memZ i ex) [] batch);
+             ledger := ledger st ++ cut_txns cfg st (qe_ver q0) (split_batch (fun i => memZ i ex) [] batch);
+             store := store st; unpub := unpub st;
+             expired := expired st ++ sp_exp (split_batch (fun i => memZ i ex) [] batch); dropped := dropped st;
+             accepted := accepted st |}).
+  { unfold cut_num, cut_txns, mk_txn.
+    pose proof (split_in_nil_add_nil (fun i => memZ i ex) batch) as Hadd.
+    destruct (sp_in (split_batch (fun i => memZ i ex) [] batch)) as [|i0 ir] eqn:Ein; injection H as <-.
+    - rewrite (Hadd eq_refl), !app_nil_r. reflexivity.
+    - reflexivity. }
+  clear H. subst st'.
   exists cur, batch, (skipn (length batch) (queue st)), (qe_ver q0).
   assert (Hl : (length batch <= Nat.min (length (queue st)) (pv_max cur))%nat).
   { pose proof (svp_length (qe_ver q0) (q0 :: w)) as Hl. fold batch in Hl. rewrite <- Ew in Hl.
@@ -363,29 +420,34 @@ Proof.
   pose proof (split_perm (fun i => memZ i ex) [] batch) as Hsp. cbn zeta in Hsp.
   destruct (split_in_sfx (fun i => memZ i ex) [] batch) as [Hnd _].
   set (sp := split_batch (fun i => memZ i ex) [] batch) in *.
-  set (t := {| t_time := now st; t_num := next_num st; t_cref := next_num st + 1;
-               t_pver := if c_by_time cfg then now st else ver; t_ops := sp_in sp |}).
+  destruct (cut_txns_cases cfg st ver sp) as [(Hin & -> & ->) | (Hin & -> & ->)].
+  { (* F16: every operation of the batch expired: no transaction, the batch goes to [expired] *)
+    rewrite Hin in Hsp. cbn [app] in Hsp.
+    constructor; unfold places, ledger_ops, anch in *;
+      cbn [accepted queue ledger store expired dropped now next_num unpub]; rewrite ?app_nil_r; try assumption.
+    rewrite Hq in Ic. count_perm. }
+  set (t := mk_txn cfg st ver sp).
   constructor; unfold places, ledger_ops; cbn [accepted queue ledger store expired dropped now next_num unpub]; try assumption; try lia.
-  - unfold places, ledger_ops in Ic. rewrite Hq in Ic. rewrite map_app, concat_app. cbn [map concat t_ops t]. rewrite app_nil_r.
+  - unfold places, ledger_ops in Ic. rewrite Hq in Ic. rewrite map_app, concat_app. cbn [map concat t_ops t mk_txn]. rewrite app_nil_r.
     count_perm.
   - unfold anch at 1. cbn [store ledger]. rewrite anch_snoc. apply SS_app; [assumption | apply stamp_same_txn_sorted; exact Hnd |].
     intros a b Ha Hb. rewrite Forall_forall in Ib. destruct (Ib a Ha) as (Ht & Hn & _).
     unfold txn_sops in Hb. apply in_map_iff in Hb. destruct Hb as (z & <- & _).
-    unfold before, stamp_sop. cbn [s_time s_num t_time t_num t]. repeat split; lia.
+    unfold before, stamp_sop. cbn [s_time s_num t_time t_num t mk_txn]. repeat split; lia.
   - unfold anch at 1. cbn [store ledger]. rewrite anch_snoc. apply Forall_app. split.
     + rewrite Forall_forall in *. intros e He. destruct (Ib e He) as (Ht & Hn & Hcr). unfold bounded. cbn [now next_num]. repeat split; lia.
     + rewrite Forall_forall. intros e He. unfold txn_sops in He. apply in_map_iff in He. destruct He as (z & <- & _).
-      unfold bounded, stamp_sop. cbn [now next_num s_time s_num s_cref t_time t_num t_cref t]. repeat split; lia.
-  - apply Forall_app. split; [assumption|]. constructor; [|constructor]. cbn [t_pver t_ops t]. split; [|exact Hnd].
+      unfold bounded, stamp_sop. cbn [now next_num s_time s_num s_cref t_time t_num t_cref t mk_txn]. repeat split; lia.
+  - apply Forall_app. split; [assumption|]. constructor; [|constructor]. cbn [t_pver t_ops t mk_txn]. split; [|split; [exact Hnd | exact Hin]].
     destruct (c_by_time cfg); [congruence | exact Hvv].
   - unfold anch at 1. cbn [store ledger]. rewrite anch_snoc. apply Forall_app. split; [assumption|].
     rewrite Forall_forall. intros e He. unfold txn_sops in He. apply in_map_iff in He. destruct He as (z & <- & Hz).
-    unfold stamp_ok, stamp_sop. cbn [s_pver s_time s_q t_pver t_time t t_ops] in *.
+    unfold stamp_ok, stamp_sop. cbn [s_pver s_time s_q t_pver t_time t t_ops mk_txn] in *.
     destruct (c_by_time cfg); [reflexivity|]. rewrite Forall_forall in Hver. symmetry. apply Hver.
     eapply sub_in; [apply split_sub_in | exact Hz].
   - unfold anch at 1. cbn [store ledger]. rewrite anch_snoc. apply Forall_app. split; [assumption|].
     rewrite Forall_forall. intros e He. unfold txn_sops in He. apply in_map_iff in He. destruct He as (z & <- & Hz).
-    unfold stamp_sop. cbn [s_pver t_pver t]. destruct (c_by_time cfg); [congruence | exact Hvv].
+    unfold stamp_sop. cbn [s_pver t_pver t mk_txn]. destruct (c_by_time cfg); [congruence | exact Hvv].
 Qed.
 
 Lemma drain_inv cfg ex fuel : forall st, inv cfg st -> inv cfg (drain cfg ex fuel st).
@@ -443,7 +505,7 @@ Proof.
   intros I. destruct I as [Ic Is Ib In Iu Iq Il Id Ist Ipv].
   unfold places, ledger_ops, anch in *.
   cbn [set_ledger accepted queue ledger store expired dropped now next_num unpub map concat] in *.
-  inversion Il as [|? ? [Hv Hnd] Il']; subst.
+  inversion Il as [|? ? (Hv & Hnd & Hne0) Il']; subst.
   unfold observe_txn. destruct (version_at (c_versions cfg) (t_pver t)) as [vv|]; [|congruence].
   rewrite (dedup_nodup [] (t_ops t) Hnd) by (intros ? ? []).
   assert (Ha : (store st ++ map (stamp_sop t) (t_ops t)) ++ concat (map txn_sops r) = store st ++ txn_sops t ++ concat (map txn_sops r)).
@@ -1064,21 +1126,47 @@ Qed.
    version in force when the batch is cut: *)
 Theorem batch_shape cfg ex f st st' :
   cut cfg ex f st = Some st' ->
-  exists cur t, version_at (c_versions cfg) (now st) = Some cur /\ ledger st' = ledger st ++ [t] /\
-    (exists ver, Forall (fun q => qe_ver q = ver) (t_ops t) /\ t_pver t = if c_by_time cfg then now st else ver) /\
-    (length (t_ops t) <= pv_max cur)%nat /\ NoDup (map qe_sfx (t_ops t)) /\
-    t_time t = now st /\ t_num t = next_num st /\
-    (f = false -> (pv_max cur <= length (queue st))%nat).
+  exists cur, version_at (c_versions cfg) (now st) = Some cur /\
+    (f = false -> (pv_max cur <= length (queue st))%nat) /\
+    ((* F16: every operation of the batch expired - no transaction is written, no number is consumed; the batch
+        (a non-empty prefix of the queue within the size limit, one version) is discarded as expired *)
+     (exists batch, batch <> [] /\ queue st = batch ++ queue st' /\ (length batch <= pv_max cur)%nat /\
+        (exists ver, Forall (fun q => qe_ver q = ver) batch) /\
+        ledger st' = ledger st /\ next_num st' = next_num st /\ Permutation (expired st') (expired st ++ batch)) \/
+     (* a transaction with at least one operation *)
+     (exists t, ledger st' = ledger st ++ [t] /\ next_num st' = next_num st + 1 /\ t_ops t <> [] /\
+        (exists ver, Forall (fun q => qe_ver q = ver) (t_ops t) /\ t_pver t = if c_by_time cfg then now st else ver) /\
+        (length (t_ops t) <= pv_max cur)%nat /\ NoDup (map qe_sfx (t_ops t)) /\
+        t_time t = now st /\ t_num t = next_num st)).
 Proof.
   intros Hc. destruct (cut_spec _ _ _ _ _ Hc) as (cur & batch & rest & ver & Hcur & Hne & Hq & Hver & Hlen & Hf & Hvv & ->).
-  eexists cur, _. split; [exact Hcur|]. split; [reflexivity|]. cbn [t_ops t_pver t_time t_num].
-  pose proof (split_sub_in (fun i => memZ i ex) [] batch) as Hsub.
-  split; [exists ver; split; [eapply Forall_sub; eassumption | reflexivity]|].
-  split.
-  { assert (Hl : forall A (a b : list A), sub a b -> (length a <= length b)%nat).
-    { intros A a b Hs. induction Hs; cbn [length]; lia. }
-    specialize (Hl _ _ _ Hsub). lia. }
-  split; [apply split_in_sfx|]. repeat split. exact Hf.
+  exists cur. split; [exact Hcur|]. split; [exact Hf|].
+  pose proof (split_perm (fun i => memZ i ex) [] batch) as Hsp. cbn zeta in Hsp.
+  pose proof (split_in_nil_add_nil (fun i => memZ i ex) batch) as Hadd.
+  set (sp := split_batch (fun i => memZ i ex) [] batch) in *.
+  destruct (cut_txns_cases cfg st ver sp) as [(Hin & -> & ->) | (Hin & -> & ->)]; cbn [ledger next_num queue expired].
+  - left. exists batch. rewrite (Hadd Hin), !app_nil_r in *. rewrite Hin in Hsp. cbn [app] in Hsp.
+    repeat split; try assumption.
+    + exists ver. exact Hver.
+    + apply Permutation_app_head. apply Permutation_sym. exact Hsp.
+  - right. eexists. split; [reflexivity|]. split; [reflexivity|]. cbn [t_ops t_pver t_time t_num mk_txn].
+    split; [exact Hin|].
+    pose proof (split_sub_in (fun i => memZ i ex) [] batch) as Hsub. fold sp in Hsub.
+    split; [exists ver; split; [eapply Forall_sub; eassumption | reflexivity]|].
+    split.
+    { assert (Hl : forall A (a b : list A), sub a b -> (length a <= length b)%nat).
+      { intros A a b Hs. induction Hs; cbn [length]; lia. }
+      specialize (Hl _ _ _ Hsub). lia. }
+    split; [apply split_in_sfx|]. repeat split.
+Qed.
+
+(* F16: no transaction without operations is ever on the ledger (such a transaction - anchor string "0.<uri>" - is
+   refused by every observer: ParseAnchorData "number of operations must be positive") *)
+Theorem no_empty_transaction cfg t0 es :
+  Forall (fun t => t_ops t <> []) (ledger (run cfg (init t0) es)).
+Proof.
+  destruct (reachable_inv cfg t0 es) as [_ _ _ _ _ _ Il _ _ _].
+  eapply Forall_impl; [|exact Il]. intros t (_ & _ & H). exact H.
 Qed.
 
 (* STAMPED AND APPLIED: every stored operation was accepted under a version of the table; it carries
